@@ -64,6 +64,11 @@ def ref_program(rng, max_nodes=9):
     rng.shuffle(edges)
     ops = kinds + [('T', s, t) for s, t in edges]
     extra = [r for r in roots[1:]]
+    # sometimes resolve() is called on a Reference: the real root is the node it names
+    if used_ids and rng.random() < 0.15:
+        ops = ops + [('R', rng.choice(used_ids), None)]
+        root_ref = len(kinds)
+        return ops, root_ref, [0] + extra
     if rng.random() < 0.1 and n > 2:
         extra.append(rng.randrange(1, n))
     return ops, 0, extra
